@@ -1030,6 +1030,9 @@ func (x *Exec) typeAssert(fr *Frame, st *State, ins *ssa.TypeAssert) {
 		fn := quoteSym("implements:" + typeStr(ins.AssertedType))
 		x.decls.add(fn, fmt.Sprintf("(declare-fun %s (Int) Bool)", fn))
 		ok := mkAnd(mkNot(mkEq(it, tNilI)), app(sBool, fn, app(sInt, "tagof", it)))
+		if types.Identical(ins.X.Type(), ins.AssertedType) {
+			ok = mkNot(mkEq(it, tNilI)) // same interface type: only the nil check remains
+		}
 		if ins.CommaOk {
 			fr.vals[ins] = Tup{[]Val{Sc{it, ins.AssertedType}, Sc{ok, types.Typ[types.Bool]}}}
 		} else {
@@ -1362,6 +1365,7 @@ func (x *Exec) mapLen(st *State, m Sc) Term {
 	s := x.classTermSort(st, sz, arr(sInt, sInt))
 	r := x.def(st, "mlen", mkSelect(s, m.T))
 	st.assume(app(sBool, "<=", intLit(0), r))
+	st.assume(app(sBool, "<=", r, bigIntLit("281474976710656")))
 	st.assume(mkImplies(mkEq(m.T, intLit(0)), mkEq(r, intLit(0))))
 	return r
 }
